@@ -1,5 +1,10 @@
 #!/venv/bin/python
-"""Apply each /verif/seeded/<id>/patch.diff to /repo, run every claimed quick check, undo; report which checks fire."""
+"""Apply each /verif/seeded/<id>/patch.diff, run every claimed quick check, undo; report which checks fire.
+
+A patch that still applies to /repo's HEAD is applied there (git -C /repo apply ... ; git -C /repo checkout -- .).
+A patch that has gone stale because /repo moved on (a later `fix:` commit touched the same lines) is evaluated in a
+scratch worktree of the commit it was confirmed against (checks run with VERIF_REPO pointing at it); violations that
+the clean tree of that commit already reports are subtracted."""
 import json, os, subprocess, sys
 from concurrent.futures import ThreadPoolExecutor
 os.chdir("/verif")
@@ -7,32 +12,60 @@ man = json.load(open("MANIFEST.json"))
 props = [c["property_id"] for c in man["checks"]]
 only = sys.argv[1:]
 rows = []
-assert subprocess.run("git -C /repo status --porcelain", shell=True, capture_output=True, text=True).stdout.strip() == "", "/repo not clean"
+def sh(c): return subprocess.run(c, shell=True, capture_output=True, text=True)
+assert sh("git -C /repo status --porcelain").stdout.strip() == "", "/repo not clean"
+
+def run_all(repo):
+    def run(p):
+        env = dict(os.environ, VERIF_NO_EVIDENCE="1", VERIF_REPO=repo)
+        rr = subprocess.run(["./check", p], capture_output=True, text=True, env=env)
+        fired = sorted({l.strip().split(": ", 1)[1][:160] for l in rr.stdout.splitlines() if ": [R-" in l})
+        errs = [l for l in rr.stdout.splitlines() if l.startswith("ANALYSIS-ERROR")]
+        return p, rr.returncode, fired, errs
+    with ThreadPoolExecutor(8) as ex:
+        return list(ex.map(run, props))
+
+clean_cache = {}
 for sid in sorted(os.listdir("seeded")):
     d = f"seeded/{sid}"
     if not os.path.isdir(d) or (only and sid not in only):
         continue
     meta = json.load(open(f"{d}/meta.json"))
-    r = subprocess.run(f"git -C /repo apply /verif/{d}/patch.diff", shell=True, capture_output=True, text=True)
-    if r.returncode != 0:
-        rows.append((sid, meta["breaks_property"], "PATCH-STALE", [], []))
-        continue
-    try:
-        def run(p):
-            rr = subprocess.run(["./check", p], capture_output=True, text=True, env=dict(os.environ, VERIF_NO_EVIDENCE="1"))
-            fired = [l.strip() for l in rr.stdout.splitlines() if "[R-" in l and "VIOLATION" not in l]
-            return p, rr.returncode, fired
-        with ThreadPoolExecutor(8) as ex:
-            out = list(ex.map(run, props))
-    finally:
-        subprocess.run("git -C /repo checkout -- .", shell=True)
-    fired = [(p, f) for p, rc, f in out if rc == 1]
-    broken = [p for p, rc, f in out if rc == 2]
-    rows.append((sid, meta["breaks_property"], "DETECTED" if fired else "missed", fired, broken))
-for sid, prop, status, fired, broken in rows:
-    print(f"{sid:28s} {prop}  {status:9s} by {[p for p, _ in fired]} analysis-broken={broken}")
+    where = "/repo"
+    if sh(f"git -C /repo apply --check /verif/{d}/patch.diff").returncode == 0:
+        sh(f"git -C /repo apply /verif/{d}/patch.diff")
+        try:
+            out = run_all("/repo")
+        finally:
+            sh("git -C /repo checkout -- .")
+        base = {}
+    else:
+        head = meta["repo_head_when_confirmed"]
+        wt = "/tmp/wt_seedrun"
+        sh(f"git -C /repo worktree remove --force {wt}")
+        assert sh(f"git -C /repo worktree add -q --detach {wt} {head}").returncode == 0
+        try:
+            if head not in clean_cache:
+                clean_cache[head] = {p: set(f) for p, rc, f, e in run_all(wt)}
+            base = clean_cache[head]
+            assert sh(f"git -C {wt} apply /verif/{d}/patch.diff").returncode == 0, "patch does not apply to its own head"
+            out = run_all(wt)
+        finally:
+            sh(f"git -C /repo worktree remove --force {wt}")
+        where = f"worktree@{head}"
+    fired = [(p, [x for x in f if x not in base.get(p, set())]) for p, rc, f, e in out]
+    fired = [(p, f) for p, f in fired if f]
+    broken = [p for p, rc, f, e in out if e]
+    rows.append((sid, meta["breaks_property"], "DETECTED" if fired else ("analysis-broken" if broken else "missed"), fired, broken, where))
+for sid, prop, status, fired, broken, where in rows:
+    print(f"{sid:10s} {prop}  {status:15s} by {[p for p, _ in fired]} analysis-broken={broken} ({where})")
     for p, f in fired:
         for l in f[:2]:
-            print("      ", p, l[:200])
-json.dump([{"seed": r[0], "property": r[1], "status": r[2], "fired": [[p, f[:2]] for p, f in r[3]], "analysis_broken": r[4]} for r in rows],
-          open("seeded/RESULTS.json", "w"), indent=1)
+            print("      ", p, l[:170])
+prev = {}
+if os.path.exists("seeded/RESULTS.json") and only:
+    prev = {r["seed"]: r for r in json.load(open("seeded/RESULTS.json"))}
+for r in rows:
+    prev[r[0]] = {"seed": r[0], "property": r[1], "status": r[2], "fired": [[p, f[:3]] for p, f in r[3]],
+                  "analysis_broken": r[4], "evaluated_on": r[5]}
+json.dump([prev[k] for k in sorted(prev)], open("seeded/RESULTS.json", "w"), indent=1)
